@@ -629,13 +629,22 @@ def evaluate_mp(r, val: dict, dps: int = 60):
             if k == "inv":
                 return 1 / ev(t[1])
             if k == "powi":
-                return ev(t[1]) ** t[2]
+                b = ev(t[1])
+                if t[2] > 1 and abs(b) > 1 and t[2] * mpmath.log(abs(b)) > 10000:
+                    raise OverflowError("huge power")
+                return b ** t[2]
             if k == "sqrt":
                 return mpmath.sqrt(cz(ev(t[1])))
             if k == "rpow":
-                return mpmath.exp(ev(t[2]) * mpmath.log(cz(ev(t[1]))))
+                arg = ev(t[2]) * mpmath.log(cz(ev(t[1])))
+                if abs(arg) > 10000:
+                    raise OverflowError("power tower")
+                return mpmath.exp(arg)
             if k == "fn":
-                return fn[t[1]](cz(ev(t[2][0])))
+                x = cz(ev(t[2][0]))
+                if t[1] in ("exp", "sinh", "cosh", "tanh", "sin", "cos", "tan") and abs(x) > 10000:
+                    raise OverflowError("huge argument")
+                return fn[t[1]](x)
             if k == "phi":
                 h = sum((i + 1) * ord(ch) for i, ch in enumerate(t[1])) % 97
                 acc = mpmath.mpf("0.37") + mpmath.mpf(h) / 13
@@ -656,12 +665,14 @@ def confirmed_different(orig, parsed, val) -> bool:
             a = evaluate_mp(orig, val)
             try:
                 b = evaluate_mp(parsed, val)
-            except (ZeroDivisionError, ValueError, KeyError, OverflowError):
+            except (ZeroDivisionError, ValueError, KeyError):
                 return True
+            except (OverflowError, MemoryError):
+                return False
             if not (mpmath.isfinite(a) and mpmath.isfinite(b)):
                 return False
             return abs(a - b) > mpmath.mpf(10) ** (-30) * max(1, abs(a), abs(b))
-    except (ZeroDivisionError, ValueError, KeyError, OverflowError, TypeError):
+    except (ZeroDivisionError, ValueError, KeyError, OverflowError, TypeError, MemoryError):
         return False
 
 
@@ -675,7 +686,7 @@ def find_distinguishing(rng, orig, parsed, hyp_list, tries=60):
     """Seeded search for a valuation (satisfying the domain hypotheses) at which two readings differ.
     Returns (valuation, value_orig, value_parsed) or None."""
     names = []
-    for t in (orig, parsed):
+    for t in [orig, parsed] + [h[1] for h in hyp_list]:
         for n in var_names(t):
             if n not in names:
                 names.append(n)
@@ -1434,6 +1445,14 @@ def decide_failed(ctx, prop: str, c, err: str, rng):
         found = find_distinguishing(rng, o, p, info["hyp_trees"])
         if found:
             break
+    if not found:
+        # the domain hypotheses may be unsatisfiable over the reals (e.g. a negative base of a symbolic power):
+        # compare the principal complex values, keeping only the declared sign assumptions of the symbols
+        assume = [h for h in info["hyp_trees"] if h[1][0] == "var"]
+        for o, p in zip(c["sides"], info["parsed_rtrees"]):
+            found = find_distinguishing(rng, o, p, assume, tries=24)
+            if found:
+                break
     rep = {"kind": "broken-proof", "item": c["key"], "origin": c["origin"], "rendering": c["s"],
         "parsed_as": aexpr_show(c["parsed"]), "original": str(c["expr"]), "original_srepr": c.get("srepr", ""),
         "hypotheses": info["hyps"], "theorem_or_tie": c["lemma"].name, "coq_error": err[-400:],
@@ -1499,3 +1518,39 @@ def precheck(ctx, c, rng, tries=8):
                 found_input=True)
             return True
     return False
+
+
+def prove_all(ctx, tag: str, preamble: str, lemmas, per_file: int = 40, timeout: int = 900):
+    """coqrun.prove_lemmas, then re-submit (in smaller and smaller shards) the lemmas that were not decided because
+    their shard collected too many failures or ran out of time; every lemma ends up 'ok' or with its own error."""
+    from . import coqrun  # pylint: disable=import-outside-toplevel
+    res = coqrun.prove_lemmas(ctx, tag, preamble, lemmas, per_file=per_file, timeout=timeout)
+    size = per_file
+    for rnd in range(1, 5):
+        pending = [lm for lm in lemmas if res.get(lm.name, "missing").startswith(("not reached", "shard timeout", "missing"))]
+        if not pending:
+            break
+        size = max(1, size // 4)
+        ctx.log(f"{tag}: re-submitting {len(pending)} undecided lemmas in shards of {size}")
+        res.update(coqrun.prove_lemmas(ctx, f"{tag}_r{rnd}", preamble, pending, per_file=size, timeout=timeout))
+    return res
+
+
+def measure_axioms(ctx, preamble: str, lemma):
+    """Print Assumptions of one generated obligation, so that the axioms the per-formula theorems rest on are measured
+    on every run (standard-library axioms of Reals are expected)."""
+    from . import coqrun  # pylint: disable=import-outside-toplevel
+    d = ctx.build / "axioms"
+    d.mkdir(exist_ok=True)
+    f = d / "generated_axioms.v"
+    src = (f"{preamble}\nLemma {lemma.name} : {lemma.statement}.\nProof.\n{lemma.proof}\nQed.\n"
+        f"Print Assumptions {lemma.name}.\n")
+    f.write_text(src)
+    rc_, out, _err, _dt = coqrun.coqc(f, timeout=600)
+    if rc_ != 0:
+        return ["<could not be measured>"]
+    res = coqrun.parse_print_assumptions(src, out)
+    ax = sorted({a for v in res.values() for a in v})
+    ctx.coverage["generated_lemma_axioms"] = ax or ["Closed under the global context"]
+    ctx.coverage["axioms"] = sorted(set(ctx.coverage.get("axioms", [])) | set(ax))
+    return ax
